@@ -33,6 +33,7 @@ package remote
 
 //@ func (*remoteWrapper).Sync props C09
 //@   requires [wf] f.flowControlCache != nil && f.flowControlCache.local != nil
+//@   requires [has_detail] limitItem.MaxRequestsInflight != nil || limitItem.TokenBucket != nil
 //@   requires [globals] (localCfg.GlobalMaxRequestsInflight != nil ==> localCfg.GlobalMaxRequestsInflight.Max >= 0) && (localCfg.GlobalTokenBucket != nil ==> localCfg.GlobalTokenBucket.QPS >= 0)
 //@   modifies *
 //@   ensures [inflight_clamped] old(f.GlobalCounterFlowControl) != nil && f.GlobalCounterFlowControl == old(f.GlobalCounterFlowControl) && old(limitItem.MaxRequestsInflight) != nil && fcTypeOf(old(f.GlobalCounterFlowControl)) == "MaxRequestsInflight" && old(localCfg.GlobalMaxRequestsInflight) != nil && fcsize[f.GlobalCounterFlowControl] != old(fcsize[f.GlobalCounterFlowControl]) ==> 0 <= fcsize[f.GlobalCounterFlowControl] && fcsize[f.GlobalCounterFlowControl] <= old(localCfg.GlobalMaxRequestsInflight.Max)
@@ -44,6 +45,7 @@ package remote
 //@   ensures [inflight_kept] limitItem.MaxRequestsInflight != nil && local.GlobalMaxRequestsInflight != nil && 0 <= old(limitItem.MaxRequestsInflight.Max) && old(limitItem.MaxRequestsInflight.Max) <= local.GlobalMaxRequestsInflight.Max ==> result.MaxRequestsInflight.Max == old(limitItem.MaxRequestsInflight.Max)
 //@   ensures [qps] limitItem.MaxRequestsInflight == nil && limitItem.TokenBucket != nil && local.GlobalTokenBucket != nil && local.GlobalTokenBucket.QPS >= 0 ==> result.TokenBucket != nil && 0 <= result.TokenBucket.QPS && result.TokenBucket.QPS <= local.GlobalTokenBucket.QPS && result.TokenBucket.Burst == old(limitItem.TokenBucket.Burst)
 //@   ensures [rest] result.Name == limitItem.Name && result.Strategy == limitItem.Strategy
+//@   ensures [nilness_kept] (result.MaxRequestsInflight != nil) == (limitItem.MaxRequestsInflight != nil) && (result.TokenBucket != nil) == (limitItem.TokenBucket != nil)
 
 // A reconfiguration that keeps the schema type keeps the limiter object (so the slots held by unfinished requests stay
 // counted, C05) and resizes it to the new parameters (C05, C06); only a type change, or the first sync, builds a new one.
@@ -151,3 +153,49 @@ package remote
 //@   ensures [kept_running] rateLimiter == flowcontrol.RemoteFlowControls && old(r.cancel) != nil ==> r.cancel == old(r.cancel) && cancelled == old(cancelled)
 //@   ensures [stopped] rateLimiter == flowcontrol.LocalFlowControls && old(r.cancel) != nil ==> r.cancel == nil && cancelled[old(r.cancel)]
 //@   ensures [only_own_loop_cancelled] forall f ref :: {cancelled[f]} cancelled[f] && !old(cancelled[f]) ==> f == old(r.cancel)
+
+// Which wrapper a remote limit item gets (C09): the counting wrappers only under the global-count strategy, by the TYPE of the
+// inner limiter, always around exactly the inner limiter that was handed in (the one sized by clampLimitItem), with the
+// item's own limit recorded as the wrapper's maximum; every other strategy gets the pass-through wrapper.
+// The global counter manager keeps its own map of counters and a worker; it owns no limiter or wrapper state.
+//@ interface (GlobalCounterProvider).Stop(g, name) props C09
+//@   modifies nothing
+//@ interface (GlobalCounterProvider).Add(g, name, typ, flowControl) props C09
+//@   modifies nothing
+//@ func newFlowControlCounter props C09
+//@   inline
+//@   requires [wf] fc != nil && flowControlCache != nil
+//@   requires [inflight_detail] limitItem.Strategy == proxyv1alpha1.GlobalCountLimit && fcTypeOf(fc) == "MaxRequestsInflight" ==> limitItem.MaxRequestsInflight != nil
+//@   requires [bucket_detail] limitItem.Strategy == proxyv1alpha1.GlobalCountLimit && fcTypeOf(fc) != "MaxRequestsInflight" ==> limitItem.TokenBucket != nil
+//@   modifies fcsize[fc], fcburst[fc]
+//@   ensures [pass_through] limitItem.Strategy != proxyv1alpha1.GlobalCountLimit ==> typeis(result, "*emptyGlobalWrapper") && fresh(unbox(result, "*emptyGlobalWrapper")) && unbox(result, "*emptyGlobalWrapper").FlowControl == fc
+//@   ensures [inflight_wrapper] limitItem.Strategy == proxyv1alpha1.GlobalCountLimit && fcTypeOf(fc) == "MaxRequestsInflight" ==> typeis(result, "*maxInflightWrapper") && fresh(unbox(result, "*maxInflightWrapper")) && unbox(result, "*maxInflightWrapper").FlowControl == fc && unbox(result, "*maxInflightWrapper").max == old(limitItem.MaxRequestsInflight.Max) && unbox(result, "*maxInflightWrapper").serverUnavailable == 0 && unbox(result, "*maxInflightWrapper").fcc == flowControlCache
+//@   ensures [bucket_wrapper] limitItem.Strategy == proxyv1alpha1.GlobalCountLimit && fcTypeOf(fc) != "MaxRequestsInflight" ==> typeis(result, "*tokenBucketWrapper") && fresh(unbox(result, "*tokenBucketWrapper")) && unbox(result, "*tokenBucketWrapper").FlowControl == fc && unbox(result, "*tokenBucketWrapper").qps == uint32(old(limitItem.TokenBucket.QPS)) && unbox(result, "*tokenBucketWrapper").fcc == flowControlCache
+
+// Small pure helpers the remote path relies on (C09, C05).
+//@ func EnableGlobalFlowControl props C09, C05
+//@   pure
+//@   ensures [def] result == ((schema.Strategy == proxyv1alpha1.GlobalAllocateLimit || schema.Strategy == proxyv1alpha1.GlobalCountLimit) && (schema.GlobalTokenBucket != nil || schema.GlobalMaxRequestsInflight != nil))
+//@ func toFlowControlSchema props C09
+//@   inline
+//@   modifies nothing
+//@   ensures [same_item] result.Name == limitItemConfig.Name && result.Strategy == limitItemConfig.Strategy && result.Exempt == nil && result.GlobalMaxRequestsInflight == nil && result.GlobalTokenBucket == nil
+//@   ensures [inflight] limitItemConfig.MaxRequestsInflight != nil ==> result.MaxRequestsInflight != nil && result.MaxRequestsInflight.Max == limitItemConfig.MaxRequestsInflight.Max && result.TokenBucket == nil
+//@   ensures [only_if] (limitItemConfig.MaxRequestsInflight == nil ==> result.MaxRequestsInflight == nil) && (limitItemConfig.MaxRequestsInflight != nil || limitItemConfig.TokenBucket == nil ==> result.TokenBucket == nil)
+//@   ensures [bucket] limitItemConfig.MaxRequestsInflight == nil && limitItemConfig.TokenBucket != nil ==> result.TokenBucket != nil && result.TokenBucket.QPS == limitItemConfig.TokenBucket.QPS && result.TokenBucket.Burst == limitItemConfig.TokenBucket.Burst && result.MaxRequestsInflight == nil
+
+// A remote limiter is only ever set up from a limit item that carries a limit (C09, C16): a schema with a global strategy but
+// no global limit, or a server answer without any limit, is skipped before the remote wrapper is created -- the local limiter
+// stays in charge (without this the wrapper constructor dereferences a nil limit and the reconcile goroutine panics).
+//@ interface (RemoteFlowControlWrapper).Sync(w, limitItem) props C09, C16
+//@   requires [has_detail] limitItem.MaxRequestsInflight != nil || limitItem.TokenBucket != nil
+//@   modifies *
+//@ interface (FlowControlCache).EnableRemoteFlowControl(c) props C09
+//@   modifies fields("flowControlCache", "remote")
+//@ interface (LocalFlowControlWrapper).Config(l) props C09
+//@   pure
+//@ func (*reconcile).updateGlobalCuntFlowControls props C09, C16
+//@   modifies *
+//@   loop 0: invariant [nothing] true
+//@ func (*reconcile).updateFlowControls$1 props C09, C16
+//@   modifies *
